@@ -168,7 +168,14 @@ pub(crate) fn run_block<'v, EC: EvaluationCallbacks>(
         ip = match step(eval, ec, frame, ip) {
             InstrControl::Next(ip) => ip,
             InstrControl::Return(v) => return Ok(v),
-            InstrControl::Err(e) => return Err(Bc::wrap_error_for_instr_ptr(ip, e, eval)),
+            InstrControl::Err(e) => {
+                // The error leaves all the loops of this block:
+                // stop the iterations to release mutation locks.
+                for iter in &Bc::slow_arg_at_ptr(ip).active_iters {
+                    frame.get_bc_slot(*iter).get_ref().iter_stop();
+                }
+                return Err(Bc::wrap_error_for_instr_ptr(ip, e, eval));
+            }
         }
     }
 }
